@@ -841,6 +841,91 @@ fn raw_key_lengths(ctx: &Ctx) {
     }
 }
 
+
+/// Unusual but legal STATES OF THE PROCESS the tool is started in: the current directory has been removed, one of the
+/// standard descriptors is closed, the descriptor limit is tiny, the umask masks everything, HOME / PATH are absent
+/// (they always are here), arguments relative or absolute. Whatever the state: exit 0 or 1, an `Error:` line with 1
+/// (where stderr exists), never a panic or a signal.
+fn cli_process_states(ctx: &Ctx) {
+    let mut rng = Rng::fork(ctx.seed, "C09-states");
+    let alice = crate::cli::Ident::new("alice", "apw", &mut rng);
+    let bob = crate::cli::Ident::new("bob", "bpw", &mut rng);
+    let wd = WorkDir::new("c09states");
+    wd.write("kr.txt", crate::cli::keyring_text(&[(&alice, true), (&bob, true)]).as_bytes());
+    wd.write("p.txt", b"some plaintext");
+    let kf = refspec::encode_key_file(&alice.sk, &alice.pk, &bob.pk, &rng.arr32(), &rng.arr32(), b"hello", &[5]).unwrap();
+    let pf = refspec::encode_pass_file(b"bpw", &rng.arr32(), b"hello", &[5]);
+    wd.write("k.ktl", &kf);
+    wd.write("p.ktl", &pf);
+    let abs = |n: &str| wd.file(n).to_string_lossy().into_owned();
+    let states: Vec<(&str, &str, bool)> = vec![
+        // (what, sh prelude, is stderr still there?)
+        ("current directory removed", "mkdir -p gone.$$ && cd gone.$$ && rmdir ../gone.$$", true),
+        ("current directory removed, two levels", "mkdir -p g2.$$/x && cd g2.$$/x && rm -rf ../../g2.$$", true),
+        ("stdin closed", "exec 0<&-", true),
+        ("stdout closed", "exec 1>&-", true),
+        ("stderr closed", "exec 2>&-", false),
+        ("all three standard descriptors closed", "exec 0<&- 1>&- 2>&-", false),
+        ("descriptor limit 4", "ulimit -n 4", true),
+        ("descriptor limit 5", "ulimit -n 5", true),
+        ("umask 777", "umask 777", true),
+        ("umask 000", "umask 000", true),
+        ("tiny stack limit", "ulimit -s 64", true),
+        ("address space limit 48 MiB (scrypt needs 32 MiB)", "ulimit -v 49152", true),
+        ("CPU time limit 1 s", "ulimit -t 1", true),
+        ("core dumps disabled, nice 19", "ulimit -c 0; renice -n 19 $$ >/dev/null 2>&1 || true", true),
+    ];
+    let mut jobs: Vec<(usize, usize, bool)> = Vec::new();
+    for si in 0..states.len() {
+        for ci in 0..7 {
+            for absolute in [false, true] {
+                jobs.push((si, ci, absolute));
+            }
+        }
+    }
+    let wdp = &wd;
+    let (alice, states) = (&alice, &states);
+    par_for(jobs.len(), crate::util::ncpu(), |j| {
+        let (si, ci, absolute) = jobs[j];
+        let (what, prelude, has_stderr) = states[si];
+        let f = |n: &str| if absolute { abs(n) } else { n.to_string() };
+        let out = f(&format!("out-{}.bin", j));
+        let (args, pw): (Vec<String>, &str) = match ci {
+            0 => (vec!["encrypt".into(), f("p.txt"), "-t".into(), "bob".into(), "-f".into(), "alice".into(), "-o".into(), out.clone(), "-k".into(), f("kr.txt"), "--env-pass".into()], "apw"),
+            1 => (vec!["decrypt".into(), f("k.ktl"), "-t".into(), "bob".into(), "-o".into(), out.clone(), "-k".into(), f("kr.txt"), "--env-pass".into()], "bpw"),
+            2 => (vec!["password".into(), "encrypt".into(), f("p.txt"), "-o".into(), out.clone(), "--env-pass".into()], "bpw"),
+            3 => (vec!["password".into(), "decrypt".into(), f("p.ktl"), "-o".into(), out.clone(), "--env-pass".into()], "bpw"),
+            4 => (vec!["decrypt".into(), f("k.ktl"), "-t".into(), "bob".into(), "-k".into(), f("kr.txt"), "--env-pass".into()], "bpw"),
+            5 => (vec!["key".into(), "extract-pub".into(), alice.locked.clone(), "--env-pass".into()], "apw"),
+            _ => (vec!["key".into(), "generate".into(), "-o".into(), f(&format!("gen-{}.txt", j)), "--env-pass".into()], "gpw"),
+        };
+        let argrefs: Vec<&str> = args.iter().map(|x| x.as_str()).collect();
+        let mut c = Cmd::new(&wdp.path, &argrefs).pass(pw).prelude(prelude);
+        if ci == 6 {
+            c = c.stdin(Stdin::Bytes(b"newkey\n".to_vec()));
+        }
+        c.timeout = std::time::Duration::from_secs(60);
+        let o = c.run();
+        ctx.eval();
+        let case = || json!({"process_state": what, "sh_prelude": prelude, "argv": args, "paths": if absolute { "absolute" } else { "relative" }, "exit": o.exit.describe(), "stderr": o.stderr_s().chars().take(400).collect::<String>()});
+        match &o.exit {
+            Exit::Code(0) => ctx.seen(&format!("cli in an unusual process state -> exit 0 ({})", what)),
+            Exit::Code(1) if o.has_error_line() || !has_stderr => {
+                ctx.seen(&format!("cli in an unusual process state -> exit 1 ({})", what));
+                ctx.distinct(&format!("state|{}|{}|{}", si, ci, absolute));
+            }
+            Exit::Code(1) => ctx.violation("C09:cli-process-state:exit-1-without-error-line", case()),
+            // the limits themselves may end the process: CPU limit -> SIGXCPU/SIGKILL, address space -> allocation abort
+            Exit::Signal(_) if what.starts_with("CPU time limit") => ctx.seen("cli under a CPU time limit was ended by the limit itself"),
+            Exit::Signal(6) | Exit::Code(101) | Exit::Code(134) if what.starts_with("address space limit") || what.starts_with("tiny stack") => ctx.seen("cli under a memory limit was ended by the limit itself (allocation failure)"),
+            Exit::Timeout => ctx.inconclusive("C09 process states: timeout"),
+            // 126 / 127 come from the launching shell (the tool could not be exec'ed in that state): not an observation of the tool
+            Exit::Code(126) | Exit::Code(127) => ctx.seen("launcher could not exec the tool in this process state (not judged)"),
+            other => ctx.violation(&format!("C09:cli-process-state:{}:{}", what.replace(' ', "-").replace(',', ""), other.describe().replace(' ', "-")), case()),
+        }
+    });
+}
+
 pub fn run(ctx: &Ctx) {
     ctx.rule(
         "library surfaces (key_decrypt, pass_decrypt, noise_decrypt, both AEAD opens, key-string decoders, keyring parser) are offered: every prefix length of authentic inputs, every length \
@@ -866,11 +951,15 @@ pub fn run(ctx: &Ctx) {
     if only.is_empty() || only == "sargv" {
         cli_structured_argv(ctx);
     }
+    if only.is_empty() || only == "states" {
+        cli_process_states(ctx);
+    }
     ctx.require("child finished", 10);
     ctx.require("decrypt-key attacker-chosen length field", 50);
     ctx.require("noise ", 300);
     ctx.require("cli argv -> exit", 5_000);
     ctx.require("cli hostile file -> exit 1", 20);
+    ctx.require("cli in an unusual process state -> exit", 150);
     ctx.require("cli almost-well-formed key text -> exit", 100);
     ctx.require("cli structured argv -> exit", 300);
     ctx.require("cli hostile environment/stdin -> exit", 10);
